@@ -97,10 +97,14 @@ class CodeBlocks(Space):
 
     def cases(self):
         for ci in range(len(self.ctx)):
-            for ch in "`~I":  # I = indented code block (no fence; the formatter has to choose one)
+            # I = indented code block (no fence; the formatter has to choose one); a / b = backtick fence indented by 1 / 3
+            # spaces with the content lines as written (appended later)
+            for ch in "`~Iab":
+                if ch in "ab" and len(self.ctx[ci][0]) > 0 and self.tier == "quick":
+                    continue
                 for ln in (self.lens if ch != "I" else (0,)):
                     for info in range(len(INFOS)):
-                        if (ch == "`" and "`" in INFOS[info]) or (ch == "I" and info):
+                        if (ch in "`ab" and "`" in INFOS[info]) or (ch == "I" and info):
                             continue
                         for n in range(0, self.maxlines + 1):
                             pools = [self.line_ids] * min(n, 2) + [self.line_reps] * max(0, n - 2)
@@ -117,6 +121,11 @@ class CodeBlocks(Space):
         layers, b, a = self.ctx[ci]
         if ch == "I":
             lines = ["zz", ""] + [("    " + CODE_LINES[i]) if CODE_LINES[i].strip() else "" for i in ls]
+            return docspace.in_context(lines, layers, b, a)
+        if ch in "ab":
+            ind = " " * (1 if ch == "a" else 3)
+            fence = "`" * ln
+            lines = ["zz", "", ind + fence + INFOS[info]] + [CODE_LINES[i] for i in ls] + ([ind + fence] if term else [])
             return docspace.in_context(lines, layers, b, a)
         fence = ch * ln
         lines = [fence + INFOS[info]] + [CODE_LINES[i] for i in ls] + ([fence] if term else [])
@@ -145,8 +154,10 @@ class CodeBlocks(Space):
             yield (ci, ch, ln - 1, info, ls, term)
         if ch == "I" and (not ls or not CODE_LINES[ls[0]].strip() or not CODE_LINES[ls[-1]].strip()):
             return
-        if ch == "~":
+        if ch in "~ab":
             yield (ci, "`", ln, info, ls, term)
+        if ch == "b":
+            yield (ci, "a", ln, info, ls, term)
         if ch == "I":
             yield (ci, "`", 3, 0, ls, True)
         if not term:
